@@ -409,8 +409,12 @@ class Problem:
                         break
 
                 if all_same:
-                    # All variables from one VectorVariable - already in order!
-                    self._variables = list(source_vector._variables)
+                    # All variables from one VectorVariable: sorting is cheap for
+                    # the usual already-ordered case and keeps reversed / column
+                    # views in natural order
+                    self._variables = sorted(
+                        source_vector._variables, key=_natural_sort_key
+                    )
                     return self._variables
 
         # General case: collect from all expressions and sort
